@@ -82,6 +82,9 @@ def gen_session(rng, tier, for_crash=False):
     n = rng.randint(31, 300) if big else rng.randint(1, 30)
     if for_crash and tier == "quick":
         n = rng.randint(1, 14) if not big else rng.randint(15, 60)
+    if not for_crash and rng.random() < 0.003:
+        # outputs of 100 KiB .. 2 MiB (buffer and chunk limits of the writer / reader lie at 64 KiB and 1 MiB)
+        n = rng.choice([rng.randint(1500, 2500), rng.randint(15500, 17500), rng.randint(22000, 30000)])
     vel = rng.random() < 0.4
     fmt = None
     d = 3
